@@ -76,6 +76,7 @@ impl Run {
     /// record a distinct non-trivial case by its content hash
     pub fn nontrivial(&self, h: u64) { self.inner.lock().unwrap().distinct.insert(h); }
     pub fn count(&self, key: &str) { self.add(key, 1); }
+    pub fn counter(&self, key: &str) -> u64 { self.inner.lock().unwrap().counters.get(key).copied().unwrap_or(0) }
     pub fn add(&self, key: &str, n: u64) { *self.inner.lock().unwrap().counters.entry(key.to_string()).or_insert(0) += n; }
     pub fn sample(&self, v: Value) {
         let mut g = self.inner.lock().unwrap();
